@@ -501,33 +501,135 @@ def specialised(p, cls, name, depth=3):
     node.body = [TypeTable().visit(st) for st in node.body]
     node.body = [Inl().visit(st) for st in node.body]
 
-    # `return self._rewrite(x, transform)` with a multi-statement hook: the hook's statements take the place of the return
-    def splice(stmts, level):
+    # `return self._rewrite(x, transform)` with a multi-statement hook: the hook's statements take the place of the return.
+    # `a, b = super()._rewrite(..)` / `a, b = self._hook(..)` with a hook that returns in several places: the hook's
+    # statements take the place of the assignment, and what follows the assignment is continued at each of its returns
+    # (with `a, b` known there - `if a: return a, b` folds away when the hook returned a constant flag).
+    def resolve_hook(c, owner):
+        """(Func, owner class of it) for `self.m(..)` (resolved for cls) or `super().m(..)` (next in the MRO after owner)"""
+        f_ = c.func
+        if not isinstance(f_, ast.Attribute) or c.keywords or any(isinstance(a_, ast.Starred) for a_ in c.args):
+            return None
+        if isinstance(f_.value, ast.Name) and f_.value.id == selfname:
+            for k in p.mro(cls):
+                if f_.attr in k.methods:
+                    return k.methods[f_.attr], k
+            return None
+        if isinstance(f_.value, ast.Call) and isinstance(f_.value.func, ast.Name) and f_.value.func.id == "super" and not f_.value.args and owner is not None:
+            mro = p.mro(cls)
+            if owner in mro:
+                for k in mro[mro.index(owner) + 1 :]:
+                    if hasattr(k, "methods") and f_.attr in k.methods:
+                        return k.methods[f_.attr], k
+        return None
+
+    def bind(h, c):
+        """parameter mapping for inlining hook h at call c, or None: a parameter is either passed under its own name (it
+        stays the same variable) or is not re-bound in the hook and is replaced by the argument (whose names the hook
+        does not re-bind either)"""
+        if h.node.args.vararg or h.node.args.kwarg or len(c.args) != len(h.params) - 1:
+            return None
+        params = h.params[1:]
+        stored = {y.id for y in ast.walk(h.node) if isinstance(y, ast.Name) and not isinstance(y.ctx, ast.Load)}
+        mapping = {h.params[0]: ast.Name(id=selfname, ctx=ast.Load())}
+        for q, a_ in zip(params, c.args):
+            if isinstance(a_, ast.Name) and a_.id == q:
+                continue
+            if q in stored or any(isinstance(y, ast.Name) and y.id in stored for y in ast.walk(a_)):
+                return None
+            mapping[q] = a_
+        return mapping
+
+    def hook_body(h, hk, mapping):
+        body = [Sub(mapping).visit(_clone(b_)) for b_ in h.node.body if not (isinstance(b_, ast.Expr) and isinstance(b_.value, ast.Constant))]
+        for b_ in body:
+            for y in ast.walk(b_):
+                y._owner_class = hk  # for super() inside the inlined statements
+        return [Inl().visit(b_) for b_ in body]
+
+    def terminates(ss):
+        if not ss:
+            return False
+        last = ss[-1]
+        if isinstance(last, (ast.Return, ast.Raise)):
+            return True
+        if isinstance(last, ast.If):
+            return terminates(last.body) and terminates(last.orelse)
+        return False
+
+    def continue_at_returns(ss, k):
+        """ss with every `return E` replaced by k(E); None when a return sits inside a loop / try / with"""
         out = []
-        for st in stmts:
+        for i, st in enumerate(ss):
+            if isinstance(st, ast.Return):
+                out.extend(k(st.value))
+                return out  # what follows a return is dead
+            if isinstance(st, ast.If) and any(isinstance(y, ast.Return) for y in ast.walk(st)):
+                rest = ss[i + 1 :]
+                b1 = continue_at_returns(st.body + ([] if terminates(st.body) else rest), k)
+                b2 = continue_at_returns((st.orelse if st.orelse else []) + ([] if st.orelse and terminates(st.orelse) else rest), k)
+                if b1 is None or b2 is None:
+                    return None
+                new_if = ast.If(test=st.test, body=b1 or [ast.Pass()], orelse=b2)
+                out.append(ast.copy_location(new_if, st))
+                return out
+            if any(isinstance(y, ast.Return) for y in ast.walk(st)) and not isinstance(st, (ast.FunctionDef, ast.Lambda)):
+                return None
+            out.append(st)
+        out.extend(k(None))
+        return out
+
+    def splice(stmts, level, owner):
+        out = []
+        for i, st in enumerate(stmts):
+            own = getattr(st, "_owner_class", owner)
             for fld in ("body", "orelse", "finalbody"):
                 blk = getattr(st, fld, None)
                 if isinstance(blk, list) and blk and isinstance(blk[0], ast.stmt) and not isinstance(st, (ast.FunctionDef, ast.ClassDef)):
-                    setattr(st, fld, splice(blk, level))
+                    setattr(st, fld, splice(blk, level, own))
             if isinstance(st, ast.Return) and isinstance(st.value, ast.Call) and level < depth:
-                c = st.value
-                if isinstance(c.func, ast.Attribute) and isinstance(c.func.value, ast.Name) and c.func.value.id == selfname and not c.keywords and not any(isinstance(a, ast.Starred) for a in c.args):
-                    h = p.lookup_method(cls, c.func.attr)
-                    if h is not None and h.node is not m.node and not h.node.args.vararg and not h.node.args.kwarg and len(c.args) == len(h.params) - 1:
-                        params = h.params[1:]
-                        stored = {y.id for y in ast.walk(h.node) if isinstance(y, ast.Name) and not isinstance(y.ctx, ast.Load)}
-                        same = all(isinstance(a, ast.Name) and a.id == q for a, q in zip(c.args, params))
-                        if same or not (stored & set(params)):
-                            mapping = {h.params[0]: ast.Name(id=selfname, ctx=ast.Load())}
-                            if not same:
-                                mapping.update(dict(zip(params, c.args)))
-                            body = [Inl().visit(Sub(mapping).visit(_clone(b))) for b in h.node.body if not (isinstance(b, ast.Expr) and isinstance(b.value, ast.Constant))]
-                            out.extend(splice(body, level + 1))
-                            continue
+                rh = resolve_hook(st.value, own)
+                if rh is not None and rh[0].node is not m.node:
+                    mapping = bind(rh[0], st.value)
+                    if mapping is not None:
+                        out.extend(splice(hook_body(rh[0], rh[1], mapping), level + 1, rh[1]))
+                        continue
+            if isinstance(st, ast.Assign) and len(st.targets) == 1 and isinstance(st.value, ast.Call) and level < depth:
+                rh = resolve_hook(st.value, own)
+                tgt = st.targets[0]
+                names = [e.id for e in tgt.elts] if isinstance(tgt, ast.Tuple) and all(isinstance(e, ast.Name) for e in tgt.elts) else ([tgt.id] if isinstance(tgt, ast.Name) else None)
+                if rh is not None and names and rh[0].node is not m.node and sum(1 for y in ast.walk(rh[0].node) if isinstance(y, ast.Return)) >= 2:
+                    mapping = bind(rh[0], st.value)
+                    rest = stmts[i + 1 :]
+                    if mapping is not None and sum(len(list(ast.walk(r_))) for r_ in rest) < 400:
+                        def k(E, names=names, rest=rest, st=st):
+                            vals = None
+                            if E is not None and len(names) > 1 and isinstance(E, ast.Tuple) and len(E.elts) == len(names):
+                                vals = dict(zip(names, E.elts))
+                            elif E is not None and len(names) == 1:
+                                vals = {names[0]: E}
+                            rest_c = [_clone(r_) for r_ in rest]
+                            if vals is None:
+                                return [ast.copy_location(ast.Assign(targets=[_clone(st.targets[0])], value=_clone(E) if E is not None else ast.Constant(value=None)), st)] + rest_c
+                            assigns = [ast.copy_location(ast.Assign(targets=[ast.Name(id=n_, ctx=ast.Store())], value=_clone(v_)), st) for n_, v_ in vals.items()]
+                            # `if flag: return flag, value` right behind the call: decided when the hook returned a constant flag
+                            if rest_c and isinstance(rest_c[0], ast.If) and isinstance(rest_c[0].test, ast.Name) and isinstance(vals.get(rest_c[0].test.id), ast.Constant):
+                                chosen = rest_c[0].body if vals[rest_c[0].test.id].value else rest_c[0].orelse
+                                stored_later = {y.id for r_ in chosen for y in ast.walk(r_) if isinstance(y, ast.Name) and not isinstance(y.ctx, ast.Load)}
+                                if not (stored_later & set(vals)) and all(isinstance(r_, (ast.Return, ast.Expr, ast.Pass)) for r_ in chosen):
+                                    chosen = [Sub(vals).visit(r_) for r_ in chosen]
+                                    return chosen if terminates(chosen) else assigns + chosen + rest_c[1:]
+                                return assigns + chosen + ([] if terminates(chosen) else rest_c[1:])
+                            return assigns + rest_c
+
+                        new = continue_at_returns(hook_body(rh[0], rh[1], mapping), k)
+                        if new is not None:
+                            out.extend(splice(new, level + 1, rh[1]))
+                            return out
             out.append(st)
         return out
 
-    node.body = splice(node.body, 0)
+    node.body = splice(node.body, 0, next((k for k in p.mro(cls) if hasattr(k, 'methods') and k.methods.get(name) is m), None))
     ast.fix_missing_locations(node)
     _set_parents(node)
     node._parent = getattr(m.node, "_parent", None)
